@@ -449,6 +449,8 @@ mod verif_replay_interp {
             (r#"<assign location="_event" expr="'x'"/>"#, "_event != 'x'"),
             (r#"<script>_sessionid = 'x'</script>"#, "_sessionid != 'x'"),
             (r#"<script>_name = 'x'</script>"#, "_name == 'machine'"),
+            (r#"<script>_sessionid ?= 'x'</script>"#, "_sessionid != 'x'"),
+            (r#"<script>_name ?= 'x'</script>"#, "_name == 'machine'"),
         ] {
             assert_eq!(run(&sysvar_doc(c, g), &[]), fin("pass"), "content {}", c);
         }
@@ -468,6 +470,29 @@ mod verif_replay_interp {
 </scxml>"###,
             guard
         )
+    }
+
+    /// C09: while an event is processed, an attempt to overwrite _event (with '=' or with '?=') raises error.execution
+    #[test]
+    fn verif_replay_interp_event_variable_read_only() {
+        for script in ["_event = 'x'", "_event ?= 'x'", "_event.name = 'x'"] {
+            let doc = format!(
+                r###"<scxml xmlns="http://www.w3.org/2005/07/scxml" initial="s0" version="1.0" datamodel="rfsm-expression">
+ <state id="s0">
+  <onentry><send event="ping"/><send event="timeout" delay="5s"/></onentry>
+  <transition event="ping" target="s1"><script>{}</script></transition>
+ </state>
+ <state id="s1">
+  <transition event="error.execution" cond="_event.name == 'error.execution'" target="pass"/>
+  <transition event="error.execution" target="stale"/>
+  <transition event="timeout" target="modified"/>
+ </state>
+ <final id="pass"/><final id="stale"/><final id="modified"/>
+</scxml>"###,
+                script
+            );
+            assert_eq!(run(&doc, &[]), fin("pass"), "script {}", script);
+        }
     }
 
     /// C09: while an event is processed _event exposes its name, type, sendid, origin, origintype, invokeid and data
